@@ -165,7 +165,9 @@ type world struct {
 	traceInstr bool
 	traceOut   io.Writer
 
-	funcsSeen map[*ssa.Function]bool
+	funcsSeen  map[*ssa.Function]bool
+	metas      map[*ssa.Function]*fnMeta
+	classCache map[string]*Term
 
 	published map[string]*Term
 	onceDone  map[*value]bool
@@ -204,6 +206,8 @@ func newWorld(id int, ex *explorer) (*world, error) {
 		sumCache:     make(map[string]sumEntry),
 		inRedirect:   make(map[*ssa.Function]bool),
 		funcsSeen:    make(map[*ssa.Function]bool),
+		metas:        make(map[*ssa.Function]*fnMeta),
+		classCache:   make(map[string]*Term),
 		sizes:        &types.StdSizes{WordSize: 8, MaxAlign: 8},
 		traceOut:     os.Stderr,
 	}
